@@ -7,6 +7,11 @@ C = "humphrey_server::server::cache::Cache"
 CI = "humphrey_server::server::cache::CachedItem"
 
 
+def is_clock(y):
+    """a reading of the system clock: SystemTime::now(), or UNIX_EPOCH.elapsed() (= now - epoch)"""
+    return isinstance(y, tuple) and y and y[0] == "call" and (y[1].endswith("SystemTime::now") or (y[1].endswith("SystemTime::elapsed") and "UNIX_EPOCH" in str(y[2])))
+
+
 def fidx(prog, st, name):
     return next(i for i, x in enumerate(prog.structs[st]["fields"]) if x["name"] == name)
 
@@ -258,7 +263,8 @@ def run(chk):
         pushes = [(blk, t) for blk, t in b.calls_to(r"VecDeque::<T, A>::(push_back|push_front)$") if on_data(describe(prog, b, t["args"][0]))]
         # every other way of changing the queue's contents is unaccounted for: cache_size would stop being the sum of the stored lengths
         known = set(pops) | set(x[0] for x in rems) | set(x[0] for x in pushes)
-        for fam_b in [b] + prog.all_closures_of(C + "::set") + [prog.bodies[x] for x in (C + "::get",) if x in prog.bodies]:
+        inl_ = {blk_.get("from_closure") for blk_ in b.blocks if blk_.get("from_closure")}
+        for fam_b in [b] + [c_ for c_ in prog.all_closures_of(C + "::set") if c_.path not in inl_] + [prog.bodies[x] for x in (C + "::get",) if x in prog.bodies]:
             for blk, t in fam_b.calls():
                 tys = t.get("arg_tys") or []
                 if not tys or not tys[0].startswith("&mut std::collections::VecDeque"):
@@ -304,7 +310,9 @@ def run(chk):
                     ok = True
             # or the other way round: the entry is taken out first and the length of what came out is subtracted
             for sb, d in subs:
-                if b.dominates(rb, sb) and desc_contains(d, lambda y: y[0] == "call" and y[1].endswith("::len") and y[2] and
+                came_out = any(lab_ == "Some" and isinstance(gd_, tuple) and desc_contains(gd_, lambda w_: w_[0] == "call" and len(w_) > 3 and w_[3] == rb)
+                               for s2_, lab_, gd_, info_ in core.guards_dominating(prog, b, sb))
+                if (b.dominates(rb, sb) or came_out) and desc_contains(d, lambda y: y[0] == "call" and y[1].endswith("::len") and y[2] and
                                                          desc_contains(y[2][0], lambda z: z[0] == "field" and z[2] == ix["item_data"] and
                                                                        desc_contains(z[1], lambda w_: w_[0] == "call" and len(w_) > 3 and w_[3] == rb))):
                     ok = True
@@ -352,7 +360,7 @@ def run(chk):
                 chk.ob("R3.stored", C + "::set", "the entry stores the given route, host, bytes and MIME type", desc_contains(f["route"], lambda y: y[0] == "param" and y[2] == "route") and
                        f["host"] == ("param", 3, "host") and desc_contains(f["data"], lambda y: y[0] == "param" and y[2] == "value") and desc_contains(f["mime_type"], lambda y: y[0] == "param" and y[2] == "mime_type"),
                        f"{ {k: panics.short_desc(v) for k, v in f.items()} }")
-                chk.ob("R3.stored", C + "::set", "cache_time <- the current clock", desc_contains(f["cache_time"], lambda y: y[0] == "call" and y[1].endswith("SystemTime::now")), "")
+                chk.ob("R3.stored", C + "::set", "cache_time <- the current clock", desc_contains(f["cache_time"], is_clock), "")
         # R3: whatever reaches set is stored — a return without the push is allowed only where the value cannot fit even into an
         # empty cache (value.len() > cache_limit; `>=` would silently refuse an item of exactly the limit and leave the old entry in place)
         push_blocks = [x for x, _ in pushes]
@@ -401,7 +409,7 @@ def run(chk):
                         # (time - item.cache_time) <= limit
                         if op in ("<=", "<") and desc_contains(a, lambda y: y[0] == "bin" and y[1].startswith("Sub")) and \
                                 desc_contains(a, lambda y: y[0] == "field" and y[2] == ix["item_time"] and panics._strip(y[1]) == item) and \
-                                desc_contains(a, lambda y: y[0] == "call" and y[1].endswith("SystemTime::now")) and \
+                                desc_contains(a, is_clock) and \
                                 desc_contains(r, lambda y: y[0] == "field" and y[2] == ix["cache_time_limit"]):
                             fresh = True
                     chk.ob("R4.fresh", C + "::get", "Some(item) only under age(item) <= cache_time_limit on that same item", fresh,
